@@ -884,9 +884,19 @@ def _check_section_name(name: bytes) -> bool:
 def _strip_comments(line: bytes) -> bytes:
     comment_bytes = {ord(b"#"), ord(b";")}
     quote = ord(b'"')
+    backslash = ord(b"\\")
     string_open = False
+    escaped = False
     # Normalize line to bytearray for simple 2/3 compatibility
     for i, character in enumerate(bytearray(line)):
+        # A backslash escapes the next character: an escaped quote does not
+        # open or close a string.
+        if escaped:
+            escaped = False
+            continue
+        if character == backslash:
+            escaped = True
+            continue
         # Comment characters outside balanced quotes denote comment start
         if character == quote:
             string_open = not string_open
